@@ -94,7 +94,9 @@ class Histories(Stream):
         for k in range(n):
             fl = 'exp' if rng.random() < 0.55 else 'sub'
             nops = rng.choice([maxops, maxops, maxops // 2, maxops // 3 + 2])
-            case, steps = GN.gen_history(rng, fl, nops, vocab(), invalid=self.invalid, avoid=self.avoid)
+            # one history in four runs on the per-graph in-memory store (NetworkXGraphImporterDisjoint): same API, same model
+            store = 'disjoint' if rng.random() < 0.25 else None
+            case, steps = GN.gen_history(rng, fl, nops, vocab(), invalid=self.invalid, avoid=self.avoid, store=store)
             # the generating run IS a run of the real API on this history: keep its observations
             if len(self._cache) > 4000:
                 self._cache.clear()
@@ -258,7 +260,7 @@ class Histories(Stream):
             pre = st['snap']
         if changed < 5:
             return None
-        return stable_hash([case['flavour'], [op[1] for op in case['ops']], [st['out'] for st in obs['steps']]])
+        return stable_hash([case['flavour'], case.get('store'), [op[1] for op in case['ops']], [st['out'] for st in obs['steps']]])
 
     def histogram(self, cases, obs):
         h = {'calls': 0, 'exp': 0, 'sub': 0, 'outcomes': {}, 'kinds': {}, 'max_nodes': 0, 'rule_violations': {},
@@ -281,7 +283,7 @@ class Histories(Stream):
         return h
 
     def describe(self, case, obs):
-        return {'flavour': case['flavour'], 'ops': case['ops'][:6], 'outcomes': [s['out'] for s in obs['steps']][:6],
+        return {'flavour': case['flavour'], 'store': case.get('store'), 'ops': case['ops'][:6], 'outcomes': [s['out'] for s in obs['steps']][:6],
                 'final_nodes': len(obs['steps'][-1]['snap']['nodes']) if obs['steps'] else 0}
 
     def shrink(self, case, failing):
@@ -289,7 +291,7 @@ class Histories(Stream):
         # drop everything after the first failing prefix, then delta-debug single ops
         lo = 1
         for k in range(1, len(ops) + 1):
-            if failing({'flavour': case['flavour'], 'ops': ops[:k]}):
+            if failing(dict(case, ops=ops[:k])):
                 ops = ops[:k]
                 break
         changed = True
@@ -297,10 +299,10 @@ class Histories(Stream):
             changed = False
             for i in range(len(ops) - 2, -1, -1):
                 cand = ops[:i] + ops[i + 1:]
-                if failing({'flavour': case['flavour'], 'ops': cand}):
+                if failing(dict(case, ops=cand)):
                     ops = cand
                     changed = True
-        return {'flavour': case['flavour'], 'ops': ops}
+        return dict(case, ops=ops)
 
 
 class Clean(Histories):
@@ -325,7 +327,7 @@ class C07(Check):
         'translator/gen_rules.py + translator/pyast.py (rules JSON, enum classes, component catalogue, NAME_REGEX, ViewOnlyDict -> Gen/Rules.v), fail-closed',
         'harness/c07.py, topo7_driver.py, topo7_gen.py, topo7_oracle.py + harness/common.py (history generation, fresh-handle resolution through the views, snapshot of storage.extract_graph, string table, cases.v writer)',
         'seven behaviour flags read off the source of the library under test (lib_flags: repairs C07-3..7, C09-6, C09-7 present or not)',
-        'modelled not verified: networkx Graph (one undirected edge per pair, remove_node drops incident edges), networkx_query search_nodes as a filter, nx.shortest_path as BFS distance, dict insertion/overwrite, uuid4 (replaced by a deterministic source in the harness process), re.fullmatch of the NAME_REGEX character classes on ASCII names',
+        'modelled not verified: networkx Graph (one undirected edge per pair, remove_node drops incident edges), networkx_query search_nodes as a filter, dict insertion/overwrite, uuid4 (replaced by a deterministic source in the harness process), re.fullmatch of the NAME_REGEX character classes on ASCII names',
     ]
     assumptions = [
         'handles are obtained through the views right before each call (fresh); cached interface lists of long-lived handles are not modelled',
